@@ -1,7 +1,9 @@
 //! C15 (standard unix build): region construction requests x sizes / file lengths / offsets around
 //! EOF and 2^64, MAP_FIXED, aligned / misaligned raw pointers, guest bases near 2^64.
-//! case:  mode kind size prot flags hasfile filelen start hasraw rawdelta hasbase base page cohere
-//! obs:   probe res size prot flags hasfile start samefd owned ptr pos d1 d2 coh1 coh2
+//! case:  mode kind size prot flags hasfile filelen start hasraw rawdelta hasbase base page cohere huge
+//! obs:   probe res size prot flags hasfile start samefd owned ptr pos d1 d2 coh1 coh2 huge
+//! huge (builder requests only): the hugetlbfs hint, 0 not given, 1 with_hugetlbfs(false), 2 with_hugetlbfs(true);
+//! observed as is_hugetlbfs() of the region built.  The hint is a label: it must not change any decision.
 //! (see coq/Spec/C15.v for the meaning).  Observation routes that do not go through the accessors
 //! under test: /proc/self/maps (bytes mapped before / while alive / after), lseek on a dup of the
 //! backing fd, pread/pwrite on the backing file, an independent mmap probe with the same arguments.
@@ -117,7 +119,9 @@ mod real {
     }
 
     pub fn exec(case: &[Tok]) -> Vec<Tok> {
-        assert!(case.len() == 14);
+        assert!(case.len() == 15);
+        let huge = case[14].u();
+        assert!(huge < 3 && (huge == 0 || case[1].u() == 0));
         let kind = case[1].u();
         let size = case[2].u() as usize;
         let (prot, flags) = (case[3].u() as u32 as i32, case[4].u() as u32 as i32);
@@ -200,6 +204,9 @@ mod real {
                     if let Some(p) = area {
                         b = unsafe { b.with_raw_mmap_pointer(p.add(rawdelta)) };
                     }
+                    if huge != 0 {
+                        b = b.with_hugetlbfs(huge == 2);
+                    }
                     b.build()
                 }
                 1 => MmapRegion::new(size),
@@ -228,11 +235,17 @@ mod real {
         let m1 = mapped_bytes();
         let mut out: Vec<Tok> = vec![n(probe)];
         let mut coh = (2u64, 2u64);
+        let mut ohuge = 0u64;
         match &built {
             None => out.extend([99u64, 0, 0, 0, 0, 0, 0, 0, 0].iter().map(|x| n(*x))),
             Some(Err(c)) => out.extend([*c, 0, 0, 0, 0, 0, 0, 0, 0].iter().map(|x| n(*x))),
             Some(Ok(b)) => {
                 let r = b.r();
+                ohuge = match r.is_hugetlbfs() {
+                    None => 0,
+                    Some(false) => 1,
+                    Some(true) => 2,
+                };
                 let ptr = match area {
                     Some(p) => (r.as_ptr() as u64).wrapping_sub(p as u64),
                     None => (r.as_ptr() as u64) % page,
@@ -292,6 +305,7 @@ mod real {
         out.push(n(m2.wrapping_sub(m0)));
         out.push(n(coh.0));
         out.push(n(coh.1));
+        out.push(n(ohuge));
         if let Some(p) = area {
             // the externally supplied mapping must still be there (owned = false): write to it
             unsafe {
@@ -308,16 +322,30 @@ mod real {
     pub fn gen(rng: &mut Rng, tier: Tier, emit: &mut dyn FnMut(Vec<Tok>)) {
         let mode = crate::build_mode();
         let page = unsafe { libc::sysconf(libc::_SC_PAGESIZE) } as u64;
+        // hint of the builder requests (kind 0) emitted next: 0 / 1 / 2, or 3 = each request under all three
+        let hint = std::cell::Cell::new(3u64);
         let mut case = |kind: u64, size: u64, prot: i32, flags: i32, file: Option<(u64, u64)>, raw: Option<u64>, base: Option<u64>, coh: bool| {
             let (hf, fl, st) = match file {
                 Some((l, s)) => (1u64, l, s),
                 None => (0, 0, 0),
             };
-            emit(vec![
-                n(mode), n(kind), n(size), n(prot as u32), n(flags as u32), n(hf), n(fl), n(st),
-                n(raw.is_some() as u64), n(raw.unwrap_or(0)), n(base.is_some() as u64), n(base.unwrap_or(0)),
-                n(page), n(coh as u64),
-            ])
+            let hints: &[u64] = if kind != 0 {
+                &[0]
+            } else {
+                match hint.get() {
+                    0 => &[0],
+                    1 => &[1],
+                    2 => &[2],
+                    _ => &[0, 2, 1],
+                }
+            };
+            for &h in hints {
+                emit(vec![
+                    n(mode), n(kind), n(size), n(prot as u32), n(flags as u32), n(hf), n(fl), n(st),
+                    n(raw.is_some() as u64), n(raw.unwrap_or(0)), n(base.is_some() as u64), n(base.unwrap_or(0)),
+                    n(page), n(coh as u64), n(h),
+                ])
+            }
         };
         let shared = libc::MAP_SHARED;
         let sh_nr = libc::MAP_SHARED | libc::MAP_NORESERVE;
@@ -429,6 +457,7 @@ mod real {
             }
             let prot = *rng.pick(&[0, 1, 3, 3, 3]);
             let coh = prot == 3 && rng.chance(3, 4);
+            hint.set(rng.below(3));
             match kind {
                 0 => {
                     let f = if rng.bool() { file } else { None };
